@@ -75,13 +75,21 @@ def _msg(t, net, src, dst, typ, daemon=False, **payload):
     return e
 
 
-def _run(entities, events=(), end=None, sources=None, start=None, poke=()):
+def _run(entities, events=(), end=None, sources=None, start=None, poke=(), starters=()):
     """Build and run one Simulation.  `poke`: passive entities that get one no-op delivery so that
-    they show up as exercised inside a simulation."""
+    they show up as exercised inside a simulation.  `starters`: callables returning the bootstrap
+    event(s) of a component (node.start, store.get_gossip_event, ...); they need the clock and are
+    therefore called after the Simulation exists."""
     sim = Simulation(start_time=start, end_time=None if end is None else _t(end),
                      sources=list(sources or []), entities=list(entities))
     for e in events:
         sim.schedule(e)
+    for f in starters:
+        r = f()
+        if r is None:
+            continue
+        for e in (r if isinstance(r, (list, tuple)) else [r]):
+            sim.schedule(e)
     t0 = start if start is not None else Instant.Epoch
     for p in poke:
         sim.schedule(Event(time=t0, event_type="verif_noop", target=p))
@@ -457,7 +465,7 @@ def data_mq_redelivery_dlq():
     from happysimulator.components.messaging.dlq import DeadLetterQueue
     from happysimulator.components.messaging.message_queue import MessageQueue
     out = {}
-    for rdel, tmo in ((H3, NS), (THIRD, ONE001), (ONE001, H3)):
+    for rdel, tmo in ((H3, NS), (THIRD, ONE001), (ONE001, H3), (NS, THIRD)):
         _seed(21)
         dlq = DeadLetterQueue("dlq", capacity=3, retention_period=P7)
         q = MessageQueue("q", delivery_latency=H3 / 3, redelivery_delay=rdel, max_redeliveries=2,
@@ -494,7 +502,7 @@ def data_mq_redelivery_dlq():
                 _ev(6.0, a, op="reprocess"), _ev(7.0, a, op="clear")]
         poller = Source.constant(rate=4.0, target=q, event_type="poll", name="poller", stop_after=5.0)
         _run([q, dlq, sink, p, a, c], evs, sources=[poller], end=9.0)
-        out[f"{rdel:.3f}"] = [q.stats.messages_redelivered, q.stats.messages_dead_lettered, dlq.message_count]
+        out[f"{rdel:.3g}"] = [q.stats.messages_redelivered, q.stats.messages_dead_lettered, dlq.message_count]
     return out
 
 
@@ -1321,6 +1329,819 @@ def data_write_policies_flush_loop():
         w1, f1 = _Proc("w", writer), _Proc("f", flusher)
         _run([kv, w1, f1], [_ev(0.0, w1), _ev(0.0, f1)], poke=[kv])
         out[type(pol).__name__] = [kv.stats.writes, n[0]]
+    return out
+
+
+# =====================================================================================================
+# replication
+# =====================================================================================================
+
+def _kv(name, rl=THIRD / 100, wl=H3 / 100):
+    from happysimulator.components.datastore.kv_store import KVStore
+    return KVStore(name, read_latency=rl, write_latency=wl)
+
+
+def _client(net, replies):
+    """A client whose requests travel through the network and whose replies arrive on futures."""
+    def body(w, ev):
+        fut = SimFuture()
+        md = ev.context
+        e = net.send(w, md["to"], md["op"], payload={"key": md["key"], "value": md.get("value"),
+                                                     "reply_future": fut})
+        yield 0.0, [e]
+        r = yield fut
+        replies.append((w.name, md["op"], md["key"], w.now.nanoseconds, str(r)[:40]))
+    return body
+
+
+def data_primary_backup_modes():
+    """client -> Network -> PrimaryNode -> two BackupNodes for ASYNC / SEMI_SYNC / SYNC; one backup link
+    is ten times slower than the other, writes to the same key arrive at one instant and 1 ns apart,
+    reads from the primary and from a (stale) backup; no end_time."""
+    from happysimulator.components.network.network import Network
+    from happysimulator.components.replication.primary_backup import BackupNode, PrimaryNode, ReplicationMode
+    out = {}
+    for mode in ReplicationMode:
+        _seed(60)
+        net = Network(name="net")
+        b1 = BackupNode("b1", _kv("b1s", wl=THIRD / 10), net, primary=None)
+        b2 = BackupNode("b2", _kv("b2s", wl=NS), net, primary=None, serve_reads=True)
+        pr = PrimaryNode("pr", _kv("prs"), [b1, b2], net, mode=mode)
+        b1._primary = b2._primary = pr
+        replies = []
+        cs = [_Proc(f"c{i}", _client(net, replies)) for i in range(3)]
+        net.add_bidirectional_link(pr, b1, _link("pb1", H3 / 10))
+        net.add_bidirectional_link(pr, b2, _link("pb2", H3))
+        for c in cs:
+            net.add_bidirectional_link(c, pr, _link(f"{c.name}p", THIRD / 10))
+            net.add_bidirectional_link(c, b1, _link(f"{c.name}b1", NS))
+        evs = []
+        for i, c in enumerate(cs):
+            evs.append(_ev(0.0, c, to=pr, op="Write", key="k", value=i))
+            evs.append(_ev(NS, c, to=pr, op="Write", key=f"k{i}", value=i))
+            evs.append(_ev(H3, c, to=pr, op="Read", key="k"))
+            evs.append(_ev(H3, c, to=b1, op="Read", key="k"))
+            evs.append(_ev(ONE001, c, to=pr, op="Write", key="k", value=10 + i))
+        _run([net, pr, b1, b2, *cs], evs)
+        out[mode.name] = [len(replies), pr.stats.acks_received]
+    return out
+
+
+def data_chain_replication_craq():
+    """build_chain of four ChainNodes (with and without CRAQ); writes to one key from three clients at
+    one instant, reads at the head, a middle node and the tail while the writes are in flight; link
+    latencies decrease along the chain."""
+    from happysimulator.components.network.network import Network
+    from happysimulator.components.replication.chain_replication import build_chain
+    out = {}
+    for craq in (False, True):
+        _seed(61)
+        net = Network(name="net")
+        nodes = build_chain(["n0", "n1", "n2", "n3"], net, lambda n: _kv(n, rl=THIRD / 100, wl=H3 / 100),
+                            craq_enabled=craq)
+        replies = []
+        cs = [_Proc(f"c{i}", _client(net, replies)) for i in range(3)]
+        lats = [ONE001 / 10, THIRD / 10, NS]
+        for i in range(3):
+            net.add_bidirectional_link(nodes[i], nodes[i + 1], _link(f"ch{i}", lats[i]))
+        for n in nodes[:-1]:
+            if n is not nodes[2]:
+                net.add_bidirectional_link(n, nodes[3], _link(f"{n.name}t", H3 / 10))   # CRAQ read forwarding
+        net.add_bidirectional_link(nodes[3], nodes[0], _link("ack", P7 / 10))
+        for c in cs:
+            for n in nodes:
+                net.add_bidirectional_link(c, n, _link(f"{c.name}{n.name}", H3 / 100))
+        evs = []
+        for i, c in enumerate(cs):
+            evs.append(_ev(0.0, c, to=nodes[0], op="Write", key="k", value=i))
+            evs.append(_ev(H3 / 10, c, to=nodes[i], op="Read", key="k"))
+            evs.append(_ev(THIRD / 10, c, to=nodes[3], op="Read", key="k"))
+            evs.append(_ev(0.5, c, to=nodes[1], op="Write", key="bad", value=i))     # not the head
+            evs.append(_ev(0.5 + NS, c, to=nodes[0], op="Write", key=f"k{i}", value=i))
+            evs.append(_ev(ONE001, c, to=nodes[1 + i % 2], op="Read", key=f"k{i}"))
+        _run([net, *nodes, *cs], evs, end=None if craq else 5.0)
+        out[str(craq)] = [len(replies), nodes[0].stats.writes_received, nodes[3].stats.reads_served]
+    return out
+
+
+def data_multi_leader_anti_entropy():
+    """Three LeaderNodes, conflicting writes to one key at one instant, every conflict resolver; the
+    anti-entropy daemon runs with periods 0.1*3 and 1/3 s; one leader is partitioned away and healed."""
+    from happysimulator.components.network.network import Network
+    from happysimulator.components.replication.conflict_resolver import (CustomResolver, LastWriterWins,
+                                                                          VectorClockMerge)
+    from happysimulator.components.replication.multi_leader import LeaderNode
+    out = {}
+    resolvers = [("lww", LastWriterWins), ("vc", lambda: VectorClockMerge()),
+                 ("vcm", lambda: VectorClockMerge(merge_fn=lambda k, a, b: a if str(a.value) >= str(b.value) else b)),
+                 ("custom", lambda: CustomResolver(lambda k, vs: max(vs, key=lambda v: (v.timestamp, v.writer_id))))]
+    for j, (nm, mk) in enumerate(resolvers):
+        _seed(62)
+        net = Network(name="net")
+        ls = [LeaderNode(f"l{i}", _kv(f"s{i}"), net, conflict_resolver=mk(),
+                         anti_entropy_interval=(H3, THIRD, P7)[i]) for i in range(3)]
+        for l in ls:
+            l.add_peers([x for x in ls if x is not l])
+        _mesh(net, ls, lat=THIRD / 10)
+        replies = []
+        cs = [_Proc(f"c{i}", _client(net, replies)) for i in range(3)]
+        for c, l in zip(cs, ls):
+            net.add_bidirectional_link(c, l, _link(f"{c.name}{l.name}", NS))
+        handle = {}
+
+        def ctl(w, ev, net=net, ls=ls, handle=handle):
+            if ev.context["op"] == "part":
+                handle["h"] = net.partition([ls[2]], ls[:2])
+            else:
+                handle["h"].heal()
+            return None
+        k = _Proc("ctl", ctl)
+        evs = []
+        for i, c in enumerate(cs):
+            evs.append(_ev(0.1, c, to=ls[i], op="Write", key="k", value=f"v{i}"))
+            evs.append(_ev(0.1 + H3, c, to=ls[i], op="Read", key="k"))
+            evs.append(_ev(ONE001, c, to=ls[i], op="Write", key="k", value=f"w{i}"))
+            evs.append(_ev(2.0, c, to=ls[i], op="Write", key=f"only{i}", value=i))
+        evs += [_ev(0.9, k, op="part"), _ev(2.5, k, op="heal")]
+        _run([net, *ls, *cs, k], evs, end=5.0, starters=[l.get_anti_entropy_event for l in ls])
+        out[nm] = [len(replies), sum(l.stats.anti_entropy_syncs for l in ls),
+                   sum(l.stats.conflicts_detected for l in ls)]
+    return out
+
+
+def data_multi_leader_ns_anti_entropy():
+    """anti_entropy_interval of 1 ns, finite end_time 2 us."""
+    from happysimulator.components.network.network import Network
+    from happysimulator.components.replication.multi_leader import LeaderNode
+    _seed(63)
+    net = Network(name="net")
+    ls = [LeaderNode(f"l{i}", _kv(f"s{i}", rl=NS, wl=NS), net, anti_entropy_interval=NS) for i in range(2)]
+    for l in ls:
+        l.add_peers([x for x in ls if x is not l])
+    _mesh(net, ls, lat=NS * 50)
+    _run([net, *ls], end=2e-6, starters=[ls[0].get_anti_entropy_event])
+    return {"syncs": ls[0].stats.anti_entropy_syncs}
+
+
+# =====================================================================================================
+# crdt
+# =====================================================================================================
+
+def data_crdt_store_gossip():
+    """Three CRDTStores per CRDT type (GCounter, PNCounter, ORSet via Write events through the network,
+    LWWRegister written directly with HLC timestamps); gossip every 1/3, 0.1*3 and 0.7 s; writes at the
+    gossip instants; a partition in the middle."""
+    from happysimulator.components.crdt import CRDTStore, GCounter, LWWRegister, ORSet, PNCounter
+    from happysimulator.components.network.network import Network
+    from happysimulator.core.logical_clocks import HLCTimestamp
+    out = {}
+    kinds = [("g", GCounter, [("increment", 2), ("increment", None)]),
+             ("pn", PNCounter, [("increment", 3), ("decrement", 1)]),
+             ("or", ORSet, [("add", "x"), ("remove", "x"), ("add", "y")]),
+             ("lww", LWWRegister, [])]
+    for nm, cls, ops in kinds:
+        _seed(64)
+        net = Network(name="net")
+        ss = [CRDTStore(f"n{i}", net, crdt_factory=(lambda nid, cls=cls: cls(nid)),
+                        gossip_interval=(THIRD, H3, P7)[i]) for i in range(3)]
+        for s in ss:
+            s.add_peers([x for x in ss if x is not s])
+        _mesh(net, ss, lat=THIRD / 10)
+        replies = []
+
+        def client(w, ev, net=net, replies=replies):
+            fut = SimFuture()
+            md = ev.context
+            e = net.send(w, md["to"], md["op"], payload={"key": md["key"], "value": md.get("value"),
+                                                         "operation": md.get("operation", "set"),
+                                                         "reply_future": fut})
+            yield 0.0, [e]
+            r = yield fut
+            replies.append(str(r)[:40])
+
+        def lww_write(w, ev, ss=ss):
+            s = ss[ev.context["i"]]
+            s.get_or_create("reg").set(ev.context["value"],
+                                       HLCTimestamp(w.now.nanoseconds, ev.context["i"], s.name))
+            return None
+        cs = [_Proc(f"c{i}", client) for i in range(3)]
+        for c, s in zip(cs, ss):
+            net.add_bidirectional_link(c, s, _link(f"{c.name}{s.name}", NS))
+        handle = {}
+
+        def ctl(w, ev, net=net, ss=ss, handle=handle):
+            if ev.context["op"] == "part":
+                handle["h"] = net.partition([ss[0]], ss[1:])
+            else:
+                handle["h"].heal()
+            return None
+        k = _Proc("ctl", ctl)
+        evs = []
+        for i, c in enumerate(cs):
+            for j, (op, val) in enumerate(ops):
+                evs.append(_ev(THIRD * (j + 1), c, to=ss[i], op="Write", key="key", operation=op, value=val))
+            evs.append(_ev(2.0, c, to=ss[i], op="Read", key="key"))
+            if not ops:
+                evs.append(_ev(THIRD * (i + 1), k, body=lww_write, i=i, value=f"v{i}"))
+                evs.append(_ev(2.0, c, to=ss[i], op="Read", key="reg"))
+        evs += [_ev(1.0, k, op="part"), _ev(1.0 + ONE001, k, op="heal")]
+        _run([net, *ss, *cs, k], evs, end=4.0, starters=[s.get_gossip_event for s in ss])
+        out[nm] = [len(replies), sum(s.stats.gossip_sent for s in ss), len({str(s.crdts.get("key", s.crdts.get("reg")).value) for s in ss})]
+    return out
+
+
+def data_crdt_store_ns_gossip():
+    """gossip_interval of 1 ns, finite end_time 2 us."""
+    from happysimulator.components.crdt import CRDTStore, GCounter
+    from happysimulator.components.network.network import Network
+    _seed(65)
+    net = Network(name="net")
+    ss = [CRDTStore(f"n{i}", net, crdt_factory=lambda nid: GCounter(nid), gossip_interval=NS) for i in range(2)]
+    for s in ss:
+        s.add_peers([x for x in ss if x is not s])
+    _mesh(net, ss, lat=NS * 50)
+    _run([net, *ss], end=2e-6, starters=[ss[0].get_gossip_event])
+    return {"sent": ss[0].stats.gossip_sent}
+
+
+# =====================================================================================================
+# consensus
+# =====================================================================================================
+
+def _cluster(cls, n, net_lat, **kw):
+    from happysimulator.components.network.network import Network
+    net = Network(name="net")
+    nodes = [cls(name=f"node-{i}", network=net, **kw) for i in range(n)]
+    for nd in nodes:
+        nd.set_peers([x for x in nodes if x is not nd])
+    _mesh(net, nodes, lat=net_lat)
+    return net, nodes
+
+
+def data_raft_hostile_timeouts():
+    """Three RaftNodes, (a) election timeout 0.1*3 .. 1/3 s with a heartbeat of 0.7 s (longer than the
+    election timeout: followers keep timing out under a live leader), (b) election timeout 0.7 .. 1.001 s
+    with a 0.1 s heartbeat; commands submitted at election instants, the leader partitioned away and
+    healed."""
+    from happysimulator.components.consensus.raft import RaftNode
+    out = {}
+    for cfg in (dict(election_timeout_min=H3, election_timeout_max=THIRD, heartbeat_interval=P7),
+                dict(election_timeout_min=P7, election_timeout_max=ONE001, heartbeat_interval=H3 / 3)):
+        out[str(cfg["heartbeat_interval"])[:5]] = _raft_run(RaftNode, cfg)
+    return out
+
+
+def _raft_run(RaftNode, cfg):
+    _seed(70)
+    net, nodes = _cluster(RaftNode, 3, THIRD / 10, **cfg)
+    futs = []
+    handle = {}
+
+    def ctl(w, ev):
+        op = ev.context["op"]
+        leaders = [n for n in nodes if n.is_leader]
+        if op == "submit":
+            for n in (leaders or nodes[:1]):
+                futs.append(n.submit({"op": "set", "key": f"k{len(futs)}", "value": len(futs)}))
+        elif op == "part" and leaders:
+            handle["h"] = net.partition([leaders[0]], [n for n in nodes if n is not leaders[0]])
+        elif op == "heal" and "h" in handle:
+            handle.pop("h").heal()
+        return None
+    k = _Proc("ctl", ctl)
+    evs = [_ev(t, k, op="submit") for t in (H3, THIRD, 1.0, ONE001, 2.0, 3.5)]
+    evs += [_ev(1.5, k, op="part"), _ev(2.5, k, op="heal")]
+    _run([net, *nodes, k], evs, end=5.0, starters=[n.start for n in nodes])
+    return {"terms": [n.current_term for n in nodes], "committed": [n.stats.commands_committed for n in nodes],
+            "resolved": sum(f.is_resolved for f in futs)}
+
+
+def data_raft_equal_timeouts_contention():
+    """Five RaftNodes with election_timeout_min == max (every node times out at the same instant: split
+    votes, repeated elections), 1 ns links, then a single-node cluster; also a 1 ns election timeout with
+    a 2 us end_time."""
+    from happysimulator.components.consensus.raft import RaftNode
+    _seed(71)
+    out = {}
+    net, nodes = _cluster(RaftNode, 5, NS, election_timeout_min=THIRD, election_timeout_max=THIRD,
+                          heartbeat_interval=H3 / 3)
+    _run([net, *nodes], end=4.0, starters=[n.start for n in nodes])
+    out["eq"] = sorted(n.current_term for n in nodes)
+    net, nodes = _cluster(RaftNode, 1, NS, election_timeout_min=ONE001, election_timeout_max=ONE001 + NS,
+                          heartbeat_interval=THIRD)
+    k = _Proc("ctl", lambda w, ev: nodes[0].submit({"op": "set", "key": "k", "value": 1}) and None)
+    _run([net, *nodes, k], [_ev(1.5, k), _ev(1.5 + NS, k)], end=3.0, starters=[n.start for n in nodes])
+    out["single"] = nodes[0].stats.commands_committed
+    net, nodes = _cluster(RaftNode, 3, NS * 10, election_timeout_min=NS, election_timeout_max=NS,
+                          heartbeat_interval=NS * 5)
+    _run([net, *nodes], end=2e-6, starters=[n.start for n in nodes])
+    out["ns"] = max(n.current_term for n in nodes)
+    return out
+
+
+def data_paxos_dueling_proposers():
+    """Three PaxosNodes proposing different values at the same instant over lossy links, retry delay 1/3 s
+    (nacks -> higher ballots), a late proposer after the decision."""
+    from happysimulator.components.consensus.paxos import PaxosNode
+    out = {}
+    for loss in (0.0, 0.2):
+        _seed(72)
+        from happysimulator.components.network.network import Network
+        net = Network(name="net")
+        nodes = [PaxosNode(name=f"p{i}", network=net, retry_delay=THIRD) for i in range(3)]
+        for nd in nodes:
+            nd.set_peers([x for x in nodes if x is not nd])
+        _mesh(net, nodes, lat=H3 / 10, packet_loss_rate=loss)
+        futs = []
+
+        def propose(w, ev, nodes=nodes, futs=futs):
+            n = nodes[ev.context["i"]]
+            futs.append(n.propose(f"value-{ev.context['i']}"))
+            return n.start_phase1()
+        k = _Proc("ctl", propose)
+        evs = [_ev(0.1, k, i=i) for i in range(3)] + [_ev(0.1 + NS, k, i=0), _ev(3.0, k, i=2)]
+        _run([net, *nodes, k], evs, end=6.0)
+        out[str(loss)] = [sorted({str(n.decided_value) for n in nodes}), sum(f.is_resolved for f in futs)]
+    return out
+
+
+def data_multi_paxos_heartbeats():
+    """Three MultiPaxosNodes all starting phase 1 at one instant, heartbeat 0.1*3 s, lease 0.7 s,
+    commands submitted to leader and followers, old leader partitioned."""
+    from happysimulator.components.consensus.multi_paxos import MultiPaxosNode
+    _seed(73)
+    net, nodes = _cluster(MultiPaxosNode, 3, THIRD / 10, leader_lease_timeout=P7, heartbeat_interval=H3)
+    futs = []
+    handle = {}
+
+    def ctl(w, ev):
+        op = ev.context["op"]
+        if op == "submit":
+            for n in nodes:
+                futs.append(n.submit({"op": "set", "key": "k", "value": len(futs)}))
+        elif op == "part":
+            ld = [n for n in nodes if n.is_leader] or nodes[:1]
+            handle["h"] = net.partition([ld[0]], [n for n in nodes if n is not ld[0]])
+        elif op == "restart":
+            return nodes[1].start()
+        else:
+            handle.pop("h").heal()
+        return None
+    k = _Proc("ctl", ctl)
+    evs = [_ev(t, k, op="submit") for t in (0.5, H3 * 3, 2.0, 3.0)]
+    evs += [_ev(1.2, k, op="part"), _ev(1.5, k, op="restart"), _ev(2.5, k, op="heal")]
+    _run([net, *nodes, k], evs, end=5.0, starters=[n.start for n in nodes])
+    return {"leaders": [n.is_leader for n in nodes], "committed": [n.stats.commands_committed for n in nodes],
+            "resolved": sum(f.is_resolved for f in futs)}
+
+
+def data_flexible_paxos_quorums():
+    """Four FlexiblePaxosNodes with asymmetric quorums (Q1=4,Q2=1), (Q1=2,Q2=3), (Q1=3,Q2=2); heartbeat
+    1/3 s; two nodes start phase 1 at the same instant."""
+    from happysimulator.components.consensus.flexible_paxos import FlexiblePaxosNode
+    from happysimulator.components.network.network import Network
+    out = {}
+    for q1, q2 in ((4, 1), (2, 3), (3, 2)):
+        _seed(74)
+        net = Network(name="net")
+        nodes = [FlexiblePaxosNode(name=f"f{i}", network=net, phase1_quorum=q1, phase2_quorum=q2,
+                                   heartbeat_interval=THIRD) for i in range(4)]
+        for nd in nodes:
+            nd.set_peers([x for x in nodes if x is not nd])
+        _mesh(net, nodes, lat=H3 / 10)
+        futs = []
+
+        def ctl(w, ev, nodes=nodes, futs=futs):
+            for n in nodes:
+                futs.append(n.submit({"op": "set", "key": "k", "value": len(futs)}))
+            return None
+        k = _Proc("ctl", ctl)
+        evs = [_ev(t, k) for t in (0.0, THIRD, 1.0, 2.0)]
+        _run([net, *nodes, k], evs, end=4.0, starters=[nodes[0].start, nodes[3].start])
+        out[f"{q1}/{q2}"] = [[n.is_leader for n in nodes], sum(f.is_resolved for f in futs)]
+    return out
+
+
+def data_leader_election_strategies():
+    """Four LeaderElection entities per strategy (bully, ring, randomized); election timeout 0.1*3 s with
+    a heartbeat interval of 1/3 s (longer than the timeout); the leader is partitioned away and healed."""
+    from happysimulator.components.consensus.election_strategies import (BullyStrategy, RandomizedStrategy,
+                                                                         RingStrategy)
+    from happysimulator.components.consensus.leader_election import LeaderElection
+    from happysimulator.components.network.network import Network
+    out = {}
+    for mk in (BullyStrategy, RingStrategy, lambda: RandomizedStrategy(ballot_range=7)):
+        _seed(75)
+        net = Network(name="net")
+        nodes = [LeaderElection(name=f"node-{i}", network=net, strategy=mk(), election_timeout=H3,
+                                heartbeat_interval=THIRD) for i in range(4)]
+        for nd in nodes:
+            for x in nodes:
+                nd.add_member(x)
+        _mesh(net, nodes, lat=THIRD / 10)
+        handle = {}
+
+        def ctl(w, ev, net=net, nodes=nodes, handle=handle):
+            if ev.context["op"] == "part":
+                ld = [n for n in nodes if n.is_leader] or nodes[-1:]
+                handle["h"] = net.partition([ld[0]], [n for n in nodes if n is not ld[0]])
+            else:
+                handle.pop("h").heal()
+            return None
+        k = _Proc("ctl", ctl)
+        _run([net, *nodes, k], [_ev(1.5, k, op="part"), _ev(2.5 + NS, k, op="heal")], end=4.0,
+             starters=[n.start for n in nodes])
+        out[type(nodes[0]._strategy).__name__] = [sorted({str(n.current_leader) for n in nodes}),
+                                                  sum(n.stats.elections_started for n in nodes)]
+    return out
+
+
+def data_membership_swim():
+    """Five MembershipProtocol nodes, probe interval 0.1*3 s (ack timeout = half of it), suspicion timeout
+    0.7 s, links slower than the ack timeout for one node (indirect probes), one node partitioned until it
+    is declared dead, then healed."""
+    from happysimulator.components.consensus.membership import MembershipProtocol
+    from happysimulator.components.network.network import Network
+    _seed(76)
+    net = Network(name="net")
+    nodes = [MembershipProtocol(name=f"m{i}", network=net, probe_interval=H3, suspicion_timeout=P7,
+                                indirect_probe_count=2, phi_threshold=3.0) for i in range(5)]
+    for nd in nodes:
+        for x in nodes:
+            nd.add_member(x)
+    for i, a in enumerate(nodes):
+        for b in nodes[i + 1:]:
+            slow = a is nodes[4] or b is nodes[4]
+            net.add_bidirectional_link(a, b, _link(f"l{a.name}{b.name}", H3 if slow else THIRD / 100))
+    handle = {}
+
+    def ctl(w, ev):
+        if ev.context["op"] == "part":
+            handle["h"] = net.partition([nodes[0]], nodes[1:])
+        else:
+            handle.pop("h").heal()
+        return None
+    k = _Proc("ctl", ctl)
+    _run([net, *nodes, k], [_ev(1.0, k, op="part"), _ev(4.0, k, op="heal")], end=6.0,
+         starters=[n.start for n in nodes])
+    return {"dead": [len(n.dead_members) for n in nodes], "probes": sum(n.stats.probes_sent for n in nodes)}
+
+
+def data_phi_accrual_heartbeats():
+    """PhiAccrualDetector fed from a heartbeat sender whose period drifts over hostile values and then
+    stops; a monitor polls phi every 1/3 s through the simulation clock."""
+    from happysimulator.components.consensus.phi_accrual_detector import PhiAccrualDetector
+    _seed(77)
+    det = PhiAccrualDetector(threshold=4.0, max_sample_size=5, min_std=0.01, initial_interval=H3)
+    seen = []
+
+    def sender(w, ev):
+        for i in range(12):
+            det.heartbeat(w.now.to_seconds())
+            yield HOSTILE[i % 4]
+
+    def monitor(w, ev):
+        for _ in range(30):
+            seen.append((det.is_available(w.now.to_seconds()), round(min(det.phi(w.now.to_seconds()), 99.0), 3)))
+            yield THIRD
+    s, m = _Proc("sender", sender), _Proc("monitor", monitor)
+    _run([s, m], [_ev(0.0, s), _ev(0.0, m)])
+    return {"unavailable": sum(1 for a, _ in seen if not a), "hb": det.stats.heartbeats_received
+            if hasattr(det.stats, "heartbeats_received") else len(seen)}
+
+
+def data_distributed_lock_leases():
+    """DistributedLock with a 0.1*3 s lease: holders that release before, exactly at and after the lease
+    expiry, waiters woken by release and by expiry, max_waiters rejections; requests arrive as events
+    (LockAcquireRequest / LockReleaseRequest) and through the direct API; the lease-expiry events the
+    lock prepares are scheduled by the caller, as in the repository's examples."""
+    from happysimulator.components.consensus.distributed_lock import DistributedLock
+    out = {}
+    for lease, end in ((H3, None), (NS, 3.0), (ONE001, 3.0)):
+        _seed(78)
+        lock = DistributedLock("lock", lease_duration=lease, max_waiters=3)
+        got = []
+
+        def pending(lock=lock):
+            e = getattr(lock, "_pending_expiry", None)
+            lock._pending_expiry = None
+            return [e] if e is not None else []
+
+        def client(w, ev, lock=lock, got=got, pending=pending):
+            fut = lock.acquire(ev.context["name"], w.name)
+            yield 0.0, pending()
+            grant = yield fut
+            if grant is None:
+                got.append((w.name, "rejected"))
+                return
+            got.append((w.name, grant.fencing_token, w.now.nanoseconds))
+            yield 0.0, pending()           # the expiry prepared when a waiter was granted
+            yield ev.context["hold"]
+            lock.release(ev.context["name"], grant.fencing_token)
+            yield 0.0, pending()
+
+        def by_event(w, ev, lock=lock, got=got, pending=pending):
+            fut = SimFuture()
+            req = Event(time=w.now, event_type="LockAcquireRequest", target=lock,
+                        context={"metadata": {"lock_name": "ev", "requester": w.name}, "reply_future": fut})
+            yield 0.0, [req]
+            grant = yield fut
+            got.append((w.name, getattr(grant, "fencing_token", None)))
+            yield 0.0, pending()
+            yield ev.context["hold"]
+            return [Event(time=w.now, event_type="LockReleaseRequest", target=lock,
+                          context={"metadata": {"lock_name": "ev", "fencing_token": grant.fencing_token}})]
+        ws = _workers(6, client)
+        es = [_Proc(f"e{i}", by_event) for i in range(3)]
+        holds = (lease / 2, lease, lease + NS, lease * 3, NS, THIRD)
+        evs = [_ev(0.0, w, name="L", hold=holds[i]) for i, w in enumerate(ws)]
+        evs += [_ev(H3, w, name="M", hold=holds[(i + 2) % 6]) for i, w in enumerate(ws[:3])]
+        evs += [_ev(THIRD, e, hold=(NS, lease, THIRD)[i]) for i, e in enumerate(es)]
+        _run([lock, *ws, *es], evs, end=end)
+        out[f"{lease:.3g}"] = [len(got), lock.stats.total_expirations, lock.stats.total_rejections]
+    return out
+
+
+# =====================================================================================================
+# cross-family flows, boundary instants, far-from-epoch clocks, nanosecond periods
+# =====================================================================================================
+
+def data_stream_watermark_boundaries():
+    """Process events scheduled exactly on (and 1 ns around) the instants of the watermark chain, which
+    the processor derives as from_seconds(now + interval) from the first event; interval 0.1*3 s,
+    tumbling windows of 1/3 s, side output for late events."""
+    from happysimulator.components.streaming.stream_processor import (LateEventPolicy, StreamProcessor,
+                                                                      TumblingWindow)
+    _seed(80)
+    sink, side = Sink("sink"), Sink("side")
+    sp = StreamProcessor("sp", TumblingWindow(THIRD), len, sink, allowed_lateness_s=NS,
+                         late_event_policy=LateEventPolicy.SIDE_OUTPUT, side_output=side,
+                         watermark_interval_s=H3)
+    t = _t(0.125)
+    evs = [Event(time=t, event_type="Process", target=sp, context={"key": "k", "value": 0})]
+    for k in range(1, 14):
+        t = Instant.from_seconds(t.to_seconds() + H3)
+        for d in (-1, 0, 0, 1):
+            evs.append(Event(time=Instant(t.nanoseconds + d), event_type="Process", target=sp,
+                             context={"key": f"k{k % 2}", "value": k,
+                                      "event_time_s": t.to_seconds() - (THIRD if k % 5 == 0 else 0.0)}))
+    _run([sp, sink, side], evs, end=6.0)
+    return {"w": sp.stats.windows_emitted, "late": sp.stats.late_events, "side": side.events_received}
+
+
+def data_raft_heartbeat_meets_timeout():
+    """Election timeout == heartbeat interval + one-way link latency: every AppendEntries reaches the
+    followers at the very instant their election timer fires."""
+    from happysimulator.components.consensus.raft import RaftNode
+    _seed(81)
+    lat = THIRD / 10
+    hb = H3
+    net, nodes = _cluster(RaftNode, 3, lat, election_timeout_min=hb + lat, election_timeout_max=hb + lat,
+                          heartbeat_interval=hb)
+    futs = []
+
+    def ctl(w, ev):
+        for n in nodes:
+            if n.is_leader:
+                futs.append(n.submit({"op": "set", "key": "k", "value": len(futs)}))
+        return None
+    k = _Proc("ctl", ctl)
+    _run([net, *nodes, k], [_ev(x, k) for x in (1.0, 1.0 + hb, 2.0, 3.0)], end=5.0,
+         starters=[n.start for n in nodes])
+    return {"terms": [n.current_term for n in nodes], "resolved": sum(f.is_resolved for f in futs)}
+
+
+def data_pipeline_topic_queue_store():
+    """Multi-step flow: source -> Topic -> bridge subscriber -> MessageQueue -> consumers -> CachedStore /
+    KVStore -> sink.  The early steps (topic fan-out 1/3 s per subscriber) take longer than the later
+    visibility timeout (0.1*3 s), so redeliveries overlap first deliveries."""
+    from happysimulator.components.datastore.cached_store import CachedStore
+    from happysimulator.components.datastore.eviction_policies import LRUEviction
+    from happysimulator.components.datastore.kv_store import KVStore
+    from happysimulator.components.messaging.dlq import DeadLetterQueue
+    from happysimulator.components.messaging.message_queue import MessageQueue
+    from happysimulator.components.messaging.topic import Topic
+    _seed(82)
+    sink = Sink("sink")
+    kv = KVStore("kv", read_latency=THIRD / 10, write_latency=P7 / 10)
+    cache = CachedStore("cache", kv, 3, LRUEviction(), cache_read_latency=NS, write_through=True)
+    dlq = DeadLetterQueue("dlq", capacity=5, retention_period=ONE001)
+    q = MessageQueue("q", delivery_latency=THIRD / 10, redelivery_delay=H3 / 3, max_redeliveries=2,
+                     dead_letter_queue=dlq)
+    topic = Topic("topic", delivery_latency=THIRD)
+
+    def bridge(w, ev):
+        if ev.event_type != "topic_message":
+            return None
+        yield from q.publish(ev.context["payload"])
+        return [Event(time=w.now, event_type="poll", target=q)]
+
+    def audit(w, ev):
+        return None
+
+    def consumer(w, ev):
+        if ev.event_type != "message_delivery":
+            return None
+        mid = ev.context["message_id"]
+        n = ev.context["payload"].context["n"]
+        if n % 4 == 3 and ev.context["delivery_count"] == 1:
+            yield H3                                    # too slow: the visibility timeout passes
+            r = q.schedule_redelivery(mid)
+            return [r] if r is not None else None
+        yield from cache.put(f"k{n % 5}", n)
+        v = yield from cache.get(f"k{(n + 1) % 5}")
+        q.acknowledge(mid)
+        return [Event(time=w.now, event_type="stored", target=sink, context={"v": v})]
+    b, a = _Proc("bridge", bridge), _Proc("audit", audit)
+    cs = [_Proc(f"c{i}", consumer) for i in range(2)]
+    topic.subscribe(a)
+    topic.subscribe(b)
+    for c in cs:
+        q.subscribe(c)
+
+    def ctx(t, n):
+        return {"created_at": t, "payload": _payload(sink, n)}
+    src = _src(5.0, topic, "publish", ctx, 3.0)
+    poller = Source.constant(rate=7.0, target=q, event_type="poll", name="poller", stop_after=6.0)
+    _run([topic, q, dlq, kv, cache, sink, a, b, *cs], sources=[src, poller], end=8.0, poke=[kv, cache, dlq])
+    return {"stored": sink.events_received, "redelivered": q.stats.messages_redelivered,
+            "dead": q.stats.messages_dead_lettered}
+
+
+def data_pipeline_log_group_stream():
+    """Multi-step flow: producers -> EventLog -> ConsumerGroup.poll -> StreamProcessor -> sink, with the
+    rebalance (1.001 s) longer than the retention sweep period (1/3 s) and the watermark period (0.1*3 s)."""
+    from happysimulator.components.streaming.consumer_group import ConsumerGroup, StickyAssignment
+    from happysimulator.components.streaming.event_log import EventLog, TimeRetention
+    from happysimulator.components.streaming.stream_processor import SlidingWindow, StreamProcessor
+    _seed(83)
+    sink = Sink("sink")
+    log = EventLog("log", num_partitions=2, retention_policy=TimeRetention(2.0), append_latency=THIRD / 10,
+                   read_latency=NS, retention_check_interval=THIRD)
+    grp = ConsumerGroup("grp", log, assignment_strategy=StickyAssignment(), rebalance_delay=ONE001,
+                        poll_latency=H3 / 10)
+    sp = StreamProcessor("sp", SlidingWindow(P7, THIRD), sum, sink, watermark_interval_s=H3)
+
+    def consumer(w, ev):
+        yield from grp.join(w.name, w)
+        offs = {}
+        for _ in range(10):
+            recs = yield from grp.poll(w.name, max_records=4)
+            out = []
+            for r in recs:
+                offs[r.partition] = r.offset + 1
+                out.append(Event(time=w.now, event_type="Process", target=sp,
+                                 context={"key": r.key, "value": r.value, "event_time_s": r.timestamp_s
+                                          if hasattr(r, "timestamp_s") else w.now.to_seconds()}))
+            if offs:
+                yield from grp.commit(w.name, dict(offs))
+            yield THIRD, out
+    cs = [_Proc(f"c{i}", consumer) for i in range(2)]
+
+    def ctx(t, n):
+        return {"created_at": t, "key": f"u{n % 3}", "value": n}
+    src = _src(8.0, log, "Append", ctx, 4.0)
+    _run([log, grp, sp, sink, *cs], [_ev(0.0, cs[0]), _ev(H3, cs[1])], sources=[src], end=7.0)
+    return {"windows": sp.stats.windows_emitted, "polled": grp.stats.records_polled}
+
+
+def data_lease_shorter_than_transaction():
+    """A DistributedLock lease (0.1*3 s) guarding a Database transaction that takes longer than the lease
+    (three statements of 1/3 s on a pool of one connection): the lease expires mid-transaction, the next
+    holder starts while the first still works, everybody also takes a local Mutex and a Semaphore."""
+    from happysimulator.components.consensus.distributed_lock import DistributedLock
+    from happysimulator.components.datastore.database import Database
+    from happysimulator.components.sync.mutex import Mutex
+    from happysimulator.components.sync.semaphore import Semaphore
+    _seed(84)
+    lock = DistributedLock("lock", lease_duration=H3)
+    db = Database("db", max_connections=1, query_latency=THIRD, connection_latency=NS, commit_latency=P7 / 10)
+    mu, sem = Mutex("mu"), Semaphore("sem", 2)
+    done = []
+
+    def pending():
+        e = getattr(lock, "_pending_expiry", None)
+        lock._pending_expiry = None
+        return [e] if e is not None else []
+
+    def worker(w, ev):
+        yield from sem.acquire(1)
+        fut = lock.acquire("row", w.name)
+        yield 0.0, pending()
+        grant = yield fut
+        yield 0.0, pending()
+        yield from mu.acquire(w.name)
+        tx = yield from db.begin_transaction()
+        for i in range(3):
+            yield from tx.execute(f"UPDATE t SET x = {i}")
+        yield from tx.commit()
+        mu.release()
+        released = lock.release("row", grant.fencing_token)     # False once the lease has expired
+        yield 0.0, pending()
+        sem.release(1)
+        done.append((w.name, released, w.now.nanoseconds))
+    ws = _workers(4, worker)
+    _run([lock, db, mu, sem, *ws], [_ev(0.0, w) for w in ws[:3]] + [_ev(H3, ws[3])], poke=[db, mu, sem])
+    return {"done": len(done), "expired": lock.stats.total_expirations}
+
+
+def data_far_from_epoch_periodics():
+    """Simulations that start 1.7e9 s after the epoch (a wall-clock timestamp used as start_time), where a
+    float second has a resolution of 238 ns: every periodic component of these families with truncating
+    millisecond-scale periods."""
+    from happysimulator.components.consensus.membership import MembershipProtocol
+    from happysimulator.components.consensus.raft import RaftNode
+    from happysimulator.components.crdt import CRDTStore, GCounter
+    from happysimulator.components.network.network import Network
+    from happysimulator.components.replication.multi_leader import LeaderNode
+    from happysimulator.components.streaming.event_log import EventLog, TimeRetention
+    from happysimulator.components.streaming.stream_processor import StreamProcessor, TumblingWindow
+    _seed(85)
+    t0 = Instant.from_seconds(1_700_000_000)
+    at = lambda x: Instant(t0.nanoseconds + int(x * 1e9))
+    out = {}
+    # streaming
+    sink = Sink("sink")
+    log = EventLog("log", num_partitions=1, retention_policy=TimeRetention(P7 / 100), append_latency=THIRD / 1000,
+                   retention_check_interval=H3 / 100)
+    sp = StreamProcessor("sp", TumblingWindow(THIRD / 100), len, sink, watermark_interval_s=H3 / 100)
+    evs = []
+    for i in range(40):
+        evs.append(Event(time=at(i * THIRD / 100), event_type="Append", target=log, context={"key": "k", "value": i}))
+        evs.append(Event(time=at(i * THIRD / 100), event_type="Process", target=sp, context={"key": "k", "value": i}))
+    _run([log, sp, sink], evs, start=t0, end=at(0.3))
+    out["stream"] = [log.stats.records_expired, sp.stats.windows_emitted]
+    # replication + crdt
+    net = Network(name="net")
+    ls = [LeaderNode(f"l{i}", _kv(f"s{i}", rl=NS, wl=THIRD / 1000), net, anti_entropy_interval=H3 / 100)
+          for i in range(2)]
+    cs = [CRDTStore(f"c{i}", net, crdt_factory=lambda nid: GCounter(nid), gossip_interval=THIRD / 100)
+          for i in range(2)]
+    for grp in (ls, cs):
+        for x in grp:
+            x.add_peers([y for y in grp if y is not x])
+        _mesh(net, grp, lat=P7 / 1000)
+    evs = [_msg(at(0.01 * i), net, ls[0], ls[1], "Write", key="k", value=i) for i in range(5)]
+    evs += [_msg(at(0.01 * i), net, cs[0], cs[1], "Write", key="k", value=1, operation="increment")
+            for i in range(5)]
+    _run([net, *ls, *cs], evs, start=t0, end=at(0.3),
+         starters=[x.get_anti_entropy_event for x in ls] + [x.get_gossip_event for x in cs])
+    out["repl"] = [sum(x.stats.anti_entropy_syncs for x in ls), sum(x.stats.gossip_sent for x in cs)]
+    # consensus
+    net, nodes = _cluster(RaftNode, 3, THIRD / 1000, election_timeout_min=H3 / 10, election_timeout_max=THIRD / 10,
+                          heartbeat_interval=P7 / 100)
+    ms = [MembershipProtocol(name=f"m{i}", network=net, probe_interval=H3 / 100, suspicion_timeout=P7 / 100)
+          for i in range(3)]
+    for m in ms:
+        for x in ms:
+            m.add_member(x)
+    _mesh(net, ms, lat=THIRD / 1000)
+    _run([net, *nodes, *ms], start=t0, end=at(0.5), starters=[n.start for n in nodes] + [m.start for m in ms])
+    out["cons"] = [max(n.current_term for n in nodes), sum(m.stats.probes_sent for m in ms)]
+    return out
+
+
+def data_ns_period_consensus():
+    """Periodic consensus components with periods of a few nanoseconds and an end_time of 1-2 us: Raft
+    heartbeats, Multi-/Flexible-Paxos heartbeats, membership probes (ack timeout = probe_interval * 0.5
+    truncates), leader-election checks."""
+    from happysimulator.components.consensus.election_strategies import RingStrategy
+    from happysimulator.components.consensus.flexible_paxos import FlexiblePaxosNode
+    from happysimulator.components.consensus.leader_election import LeaderElection
+    from happysimulator.components.consensus.membership import MembershipProtocol
+    from happysimulator.components.consensus.multi_paxos import MultiPaxosNode
+    from happysimulator.components.network.network import Network
+    _seed(86)
+    out = {}
+    net, nodes = _cluster(MultiPaxosNode, 3, NS * 7, leader_lease_timeout=NS * 20, heartbeat_interval=NS)
+    _run([net, *nodes], end=2e-6, starters=[nodes[0].start])
+    out["mp"] = [n.is_leader for n in nodes]
+    net = Network(name="net")
+    fl = [FlexiblePaxosNode(name=f"f{i}", network=net, phase1_quorum=2, phase2_quorum=2,
+                            heartbeat_interval=NS * 3) for i in range(3)]
+    for nd in fl:
+        nd.set_peers([x for x in fl if x is not nd])
+    _mesh(net, fl, lat=NS * 2)
+    _run([net, *fl], end=1e-6, starters=[fl[0].start, fl[2].start])
+    out["fp"] = [n.is_leader for n in fl]
+    net = Network(name="net")
+    ms = [MembershipProtocol(name=f"m{i}", network=net, probe_interval=NS * 3, suspicion_timeout=NS * 10)
+          for i in range(3)]
+    for m in ms:
+        for x in ms:
+            m.add_member(x)
+    _mesh(net, ms, lat=NS * 4)
+    _run([net, *ms], end=1e-6, starters=[m.start for m in ms])
+    out["swim"] = sum(m.stats.probes_sent for m in ms)
+    net = Network(name="net")
+    les = [LeaderElection(name=f"node-{i}", network=net, strategy=RingStrategy(), election_timeout=NS * 3,
+                          heartbeat_interval=NS * 2) for i in range(3)]
+    for nd in les:
+        for x in les:
+            nd.add_member(x)
+    _mesh(net, les, lat=NS * 5)
+    _run([net, *les], end=1e-6, starters=[n.start for n in les])
+    out["le"] = sorted({str(n.current_leader) for n in les})
     return out
 
 
